@@ -26,7 +26,7 @@ type Result struct {
 	// measurements
 	ConvergeMs  int64            `json:"converge_ms"` // last write/event -> first time every replica equalled the primary
 	BoundMs     int64            `json:"bound_ms"`
-	WorkMs      int64            `json:"work_ms"`   // duration of the write phases incl. pauses
+	WorkMs      int64            `json:"work_ms"` // duration of the write phases incl. pauses
 	MaxWriteUs  int64            `json:"max_write_us"`
 	PrimaryWALs int              `json:"primary_wal_files"`
 	PrimarySeq  uint64           `json:"primary_seq"`
@@ -329,6 +329,21 @@ func cause(c *Case, res *Result, idx int) string {
 		}
 	}
 	add(lw == 1, "singlelastwrite")
+	np := len(c.Phases)
+	add(np >= 2 && c.Phases[np-2].PauseMs >= 3000 && lw >= 2 && lw <= 5, "fewafteridle")
+	bulk := false
+	for _, ph := range c.Phases {
+		nb := 0
+		for _, o := range ph.Ops {
+			if o.Op == "put" && o.V.Len >= 8000 {
+				nb++
+			}
+		}
+		if nb >= 90 {
+			bulk = true
+		}
+	}
+	add(bulk, "bulk")
 	if idx >= 0 && idx < len(c.Replicas) {
 		rp := c.Replicas[idx]
 		add(rp.RestartAt >= 0, "restart")
